@@ -55,9 +55,18 @@ def tag_coords(natom, mag, digits, unit):
     for i in range(natom):
         for k in range(3):
             base = {"small": 1.0, "negwide": -900.0, "wide": 9000.0, "mixed": (-1) ** (i + k) * 3.0}[mag]
-            v = base + (3 * i + k) * step * (1 if base >= 0 else -1)
+            v = base + (3 * i + k) * step          # towards zero for negative bases: stays inside the field width
             out[i, k] = round(v, digits)
     return out * unit
+
+
+def seed_tag(rng):
+    return rng.randint(1000, 9999)
+
+
+def real_fmt(fmt):
+    """The format name iodata knows for a row of the Stores table (QCSchema has three document kinds in one module)."""
+    return "json_qcschema" if fmt.startswith("json_qcschema") else fmt
 
 
 def elements(rng, natom, pool=None):
@@ -168,6 +177,43 @@ def build(fmt, rng, natom, present, mag):
         if "g_rot" in P:
             kw["g_rot"] = 2.0
         return IOData(**kw)
+    if fmt in ("json_qcschema_input", "json_qcschema_output"):
+        # the layout of `extra` documented in json_qcschema.py: molecule / input / output sub-dictionaries
+        atnums = elements(rng, natom)
+        prov = {"creator": "other-program", "version": "1.0", "routine": "r"}
+        inp = {"driver": ["energy", "gradient", "hessian", "properties"][natom % 4], "model": {},
+               "provenance": [dict(prov)] if natom % 2 else dict(prov)}
+        if "extra.input.keywords" in P:
+            inp["keywords"] = {"scf_type": "df", "maxiter": 50 + natom, "nested": {"levels": [1, 2, {"deep": True}]}}
+        if "extra.input.extras" in P:
+            inp["extras"] = {"note": f"tag-{natom}", "list": [1.5, "a", None]}
+        if "extra.input.id" in P:
+            inp["id"] = f"job-{seed_tag(rng)}"
+        if "extra.input.protocols" in P:
+            inp["protocols"] = {"keep_wavefunction": ["all", "none", "orbitals_and_eigenvalues", "return_results"][natom % 4],
+                                "keep_stdout": bool(natom % 2)}
+        mol = {"provenance": dict(prov)}
+        if "extra.molecule.extras" in P:
+            mol["extras"] = {"tag": "mol", "nested": {"k": [1, 2, 3]}}
+        extra = {"schema_name": "qcschema_input", "schema_version": 2, "molecule": mol, "input": inp}
+        kw = dict(atnums=atnums, atcoords=tag_coords(natom, mag, 8, 1.0), charge=float(natom % 3 - 1), spinpol=float(natom % 2),
+                  lot=["HF", "B3LYP", "CCSD(T)"][natom % 3], obasis_name=["sto-3g", "6-31G*", "def2-TZVP"][natom % 3], extra=extra)
+        if fmt == "json_qcschema_output":
+            extra["schema_name"] = "qcschema_output"
+            out = {"properties": {"calcinfo_nbasis": 7 + natom, "scf_iterations": 3, "nuclear_repulsion_energy": 1.25 + natom},
+                   "return_result": -1.5 - natom if inp["driver"] == "energy" else [0.1 * natom, 0.2, -0.3],
+                   "success": bool(natom % 3), "provenance": dict(prov)}
+            for key, val in (("stdout", "text on stdout"), ("stderr", "text on stderr"),
+                             ("error", {"error_type": "convergence_error", "error_message": "did not converge"})):
+                if f"extra.output.{key}" in P:
+                    out[key] = val
+            if "energy" in P:
+                kw["energy"] = -3.75 - 0.001 * natom
+                out["properties"]["return_energy"] = kw["energy"]
+                if inp["driver"] == "energy":
+                    out["return_result"] = kw["energy"]
+            extra["output"] = out
+        return IOData(**kw)
     # wavefunction formats: generated by objects.make (orthonormal orbitals in the conventions of the format)
     variant = "plain"
     obj = O.make(fmt, rng, variant, natom=max(1, min(natom, 4)))
@@ -221,6 +267,9 @@ OPTIONAL = {
             "atffparams.resnums", "extra.compound"],
     "poscar": ["title"], "cube": ["title", "atcorenums"], "fcidump": ["core_energy", "nelec", "spinpol"],
     "json_qcschema": ["title", "atcorenums", "atmasses", "bonds", "g_rot"],
+    "json_qcschema_input": ["extra.input.keywords", "extra.input.extras", "extra.input.id", "extra.input.protocols", "extra.molecule.extras"],
+    "json_qcschema_output": ["extra.input.keywords", "extra.input.extras", "extra.input.id", "extra.input.protocols", "extra.molecule.extras",
+                             "extra.output.stdout", "extra.output.stderr", "extra.output.error", "energy"],
     "fchk": ["title", "energy", "atmasses", "atfrozen", "atgradient", "athessian", "atcharges.mulliken", "atcharges.esp", "atcharges.npa",
              "moments.(1,c)", "moments.(2,c)", "extra.polarizability_tensor", "one_rdms.scf", "one_rdms.scf_spin", "one_rdms.post_scf_ao",
              "one_rdms.post_scf_spin_ao"],
@@ -230,6 +279,9 @@ ALWAYS = {
     "xyz": ["atnums", "atcoords"], "sdf": ["atnums", "atcoords"], "mol2": ["atnums", "atcoords"], "pdb": ["atnums", "atcoords"],
     "poscar": ["atnums", "atcoords", "cellvecs"], "cube": ["atnums", "atcoords", "cube.origin", "cube.axes", "cube.data"],
     "fcidump": ["one_ints.core_mo", "two_ints.two_mo"], "json_qcschema": ["atnums", "atcoords", "charge", "spinpol"],
+    "json_qcschema_input": ["atnums", "atcoords", "charge", "spinpol", "lot", "obasis_name", "extra.input.driver"],
+    "json_qcschema_output": ["atnums", "atcoords", "charge", "spinpol", "lot", "obasis_name", "extra.input.driver",
+                             "extra.output.properties", "extra.output.return_result", "extra.output.success"],
     "fchk": ["atnums", "atcoords", "atcorenums", "lot", "obasis_name", "mo.kind", "mo.occs", "mo.energies", "mo.coeffs", "obasis.icenters",
              "obasis.angmoms", "obasis.kinds", "obasis.ncons", "obasis.exponents", "obasis.coeffs"],
     "molden": ["atnums", "atcoords", "atcorenums", "mo.kind", "mo.occs", "mo.energies", "mo.coeffs", "obasis.icenters", "obasis.angmoms",
@@ -241,6 +293,7 @@ ALWAYS = {
 SIZES = {"xyz": [1, 2, 9, 10, 99, 100, 999, 1000, 9999, 10000, 12000], "sdf": [1, 2, 9, 10, 99, 100, 101, 500, 999],
          "mol2": [1, 2, 9, 10, 99, 100, 999, 1000, 9999, 10000], "pdb": [1, 2, 9, 10, 99, 100, 999, 1000, 9999, 10000, 12000],
          "poscar": [1, 2, 5, 8, 30], "cube": [1, 2, 3, 4, 5, 6, 12], "fcidump": [1, 2, 3, 4, 5], "json_qcschema": [1, 2, 9, 10, 100, 1000],
+         "json_qcschema_input": [1, 2, 3, 4, 5, 6, 7, 12], "json_qcschema_output": [1, 2, 3, 4, 5, 6, 7, 12],
          "fchk": [1, 2, 3, 4], "molden": [1, 2, 3, 4], "molekel": [1, 2, 3], "wfn": [1, 2, 3, 4], "wfx": [1, 2, 3, 4]}
 
 
@@ -260,14 +313,14 @@ def roundtrip(task):
         with warnings.catch_warnings():
             warnings.simplefilter("ignore")
             obj = build(fmt, rng, natom, present, mag)
-            path = os.path.join(tmp, O.SUFFIX[fmt])
+            path = os.path.join(tmp, O.SUFFIX[real_fmt(fmt)])
             try:
-                api.dump_one(obj, path, fmt=fmt)
+                api.dump_one(obj, path, fmt=real_fmt(fmt))
             except Exception as exc:  # noqa: BLE001
                 ev["dump"] = classify_exc(exc) + ":" + str(exc.__cause__ or exc)[:80].replace(tmp, "")
                 return ev
             try:
-                back = api.load_one(path, fmt=fmt)
+                back = api.load_one(path, fmt=real_fmt(fmt))
             except Exception as exc:  # noqa: BLE001
                 ev["load"] = classify_exc(exc) + ":" + str(exc.__cause__ or exc)[:80].replace(tmp, "")
                 return ev
